@@ -658,6 +658,38 @@ def fam_readfault(rnd, i):
     return steps
 
 
+def fam_recerr(rnd, i):
+    """Recursive watch: a new directory is replaced by a symbolic link to itself before the (lagging) reader gets to
+    its Create, so that watching it fails with ELOOP: the reader is parked reporting that while the consumer looks at
+    Events only.  Control calls must come back, the error must be delivered, the stream and Close must go on."""
+    w = "w1"
+    steps = [{"s": "recurse", "recurse": True}, fs("mkdir", ("r",)), fs("mkdir", ("r", "sub")), new(w, rnd.choice([0, 0, 1])),
+             call(w, "add", ("r",), rnd.choice(["rel", "abs"]), recurse=True), drain(w)]
+    d = rnd.choice([("r",), ("r", "sub")])
+    x = d + ("x",)
+    # an earlier event holds the reader back (nobody is receiving)
+    steps += [fs("create", d + ("f0",)), fs("chmod", d + ("f0",)), fs("chmod", d + ("f0",))]
+    steps += [fs("mkdir", x), fs("rmdir", x), fs("symloop", x)]
+    steps += [{"s": "drain", "w": w, "only": "ev"}]
+    mode = rnd.choice(["calls", "calls", "close", "late"])
+    if mode == "calls":
+        for c in rnd.sample(["watchlist", "add", "remove"], 2):
+            if c == "watchlist":
+                steps.append(call(w, "watchlist"))
+            elif c == "add":
+                steps.append(call(w, "add", ("r", "sub"), "rel"))
+            else:
+                steps.append(call(w, "remove", ("r", "nothere"), "rel"))
+        steps += [drain(w), fs("create", d + ("f1",)), drain(w), obs(w), call(w, "close"), drain(w), obs(w)]
+    elif mode == "close":
+        steps += [call(w, "close"), drain(w), obs(w)]
+    else:
+        steps += [drain(w), obs(w), fs("create", d + ("f1",)), fs("unlink", x), fs("mkdir", x), drain(w), fs("create", x + ("in",)), drain(w), obs(w),
+                  call(w, "close"), drain(w), obs(w)]
+    steps.append({"s": "recurse", "recurse": False})
+    return steps
+
+
 def fam_moves(rnd, i, depth=30):
     """Rename correlation: moves within / between watched directories, in from and out to
     unwatched places (leaving unmatched cookies behind), plain creates and hard links in between."""
@@ -953,6 +985,40 @@ def fam_kqfault(rnd, i):
     return steps
 
 
+def fam_kqkfault(rnd, i):
+    """kqueue: kevent(EV_ADD) fails once (ENOMEM) - for an Add of a file or of a directory, or for the reader covering
+    a new entry of a watched directory.  The failing Add leaves nothing behind (descriptors, table rows, WatchList);
+    retrying and removing afterwards behave as if it had never been made."""
+    w = "w1"
+    steps = [fs("mkdir", ("d1",)), fs("create", ("d1", "n1")), fs("create", ("f",)), fs("create", ("g",)), new(w, rnd.choice([0, 4]))]
+    sp = rnd.choice(["rel", "abs"])
+    mode = rnd.choice(["file", "file", "dir", "reader", "reader"])
+    if mode == "file":
+        if rnd.random() < 0.5:
+            steps += [call(w, "add", ("d1",), sp), {"s": "obs"}]
+        steps += [{"s": "kfault", "n": 1}, call(w, "add", ("f",), sp), {"s": "obs"}, call(w, "watchlist"),
+                  call(w, "add", ("g",), sp), call(w, "add", ("f",), sp), {"s": "obs"}, call(w, "watchlist"),
+                  fs("write", ("f",)), {"s": "drain"}, fs("chmod", ("g",)), {"s": "drain"}]
+        rm = [("f",), ("g",)]
+        rnd.shuffle(rm)
+        for q in rm:
+            steps += [call(w, "remove", q, sp), {"s": "obs"}, call(w, "watchlist")]
+        steps += [fs("write", ("f",)), fs("write", ("g",)), {"s": "drain"}]
+    elif mode == "dir":
+        steps += [{"s": "kfault", "n": 1}, call(w, "add", ("d1",), sp), {"s": "obs"}, call(w, "watchlist"), call(w, "remove", ("d1",), sp),
+                  call(w, "add", ("d1",), sp), {"s": "obs"}, fs("create", ("d1", "n2")), {"s": "drain"}, fs("write", ("d1", "n1")), {"s": "drain"},
+                  call(w, "remove", ("d1",), sp), {"s": "obs"}, call(w, "watchlist")]
+    else:
+        steps += [call(w, "add", ("d1",), sp), {"s": "obs"}, {"s": "kfault", "n": 1}, fs("create", ("d1", "new")), {"s": "drain"}, {"s": "obs"}]
+        if rnd.random() < 0.5:      # (no further change of the directory itself: the entry that could not be covered would be reported again)
+            steps += [fs("write", ("d1", "n1")), {"s": "drain"}, fs("chmod", ("d1", "n1")), {"s": "drain"}, {"s": "obs"}]
+        steps += [call(w, "remove", ("d1",), sp), {"s": "obs"}, call(w, "watchlist")]
+        if rnd.random() < 0.5:
+            steps += [call(w, "add", ("f",), sp), call(w, "remove", ("f",), sp), {"s": "obs"}]
+    steps += [call(w, "close"), {"s": "drain"}, {"s": "obs"}]
+    return steps
+
+
 def fam_kqnested(rnd, i):
     """kqueue: a directory and one of its subdirectories both watched by the user (parent first), the
     subdirectory not empty when added; operations in both."""
@@ -1000,6 +1066,82 @@ def fam_kqburst(rnd, i):
     pat = rnd.choice([[fs("chmod", ("d1", "x%"))], [fs("write", ("d1", "x%"))], [fs("unlink", ("d1", "x%"))]])
     steps.append({"s": "rep", "k": n, "pat": pat})
     steps += [{"s": "drain"}, {"s": "obs"}, call(w, "watchlist"), call(w, "remove", ("d1",), "rel"), {"s": "obs"}, call(w, "close"), {"s": "drain"}, {"s": "obs"}]
+    return steps
+
+
+def fam_kqseq(rnd, i):
+    """kqueue: several operations on the SAME entries of a watched directory between two reader wake-ups (the
+    reader is parked on an unreceived Create): chmod then overwrite by rename, rename away / remove / re-create,
+    write / remove / re-create ... so that one kevent carries several NOTE_* flags.  Afterwards each name involved
+    is written to (a re-created entry must be covered) and an unrelated entry is created (nothing is reported twice)."""
+    w = "w1"
+    sp = rnd.choice(["rel", "abs"])
+    steps = [fs("mkdir", ("d1",)), fs("create", ("d1", "a")), fs("create", ("d1", "b")), fs("create", ("d1", "c")),
+             new(w, 0), call(w, "add", ("d1",), sp), {"s": "obs"}]
+    hold = rnd.random() < 0.8
+    pre = [fs("create", ("d1", "other"))] if hold else []      # unreceived: the reader parks sending this Create
+    t = rnd.choice(["chmod_overwrite", "chmod_overwrite", "away_remove_recreate", "write_remove_recreate", "chmod_remove", "remove_recreate_write",
+                    "rename_new_chmod", "write_overwrite", "away_recreate", "chain", "swap", "create_remove", "create_write", "overwrite_write",
+                    "away_recreate_write", "two_overwrites"])
+    A, B, M = ("d1", "a"), ("d1", "b"), ("d1", "m")
+    if t == "chmod_overwrite":
+        ops, after = [fs("chmod", B), fs("rename", A, to=B)], [B]
+    elif t == "write_overwrite":
+        ops, after = [fs("write", B), fs("rename", A, to=B)], [B]
+    elif t == "away_remove_recreate":
+        ops, after = [fs("rename", A, to=M), fs("unlink", M), fs("create", A)], [A]
+    elif t == "write_remove_recreate":
+        ops, after = [fs("write", A), fs("unlink", A), fs("create", A)], [A]
+    elif t == "chmod_remove":
+        ops, after = [fs("chmod", A), fs("unlink", A)], [B]
+    elif t == "remove_recreate_write":
+        ops, after = [fs("unlink", A), fs("create", A), fs("write", A)], [A]
+    elif t == "away_recreate":
+        ops, after = [fs("rename", A, to=M), fs("create", A)], [A, M]
+    elif t == "away_recreate_write":
+        ops, after = [fs("rename", A, to=M), fs("create", A), fs("write", A), fs("write", M)], [A, M]
+    elif t == "chain":
+        ops, after = [fs("rename", A, to=M), fs("rename", M, to=("d1", "n"))], [("d1", "n")]
+    elif t == "swap":
+        ops, after = [fs("rename", A, to=M), fs("rename", B, to=A), fs("rename", M, to=B)], [A, B]
+    elif t == "create_remove":
+        ops, after = [fs("create", M), fs("write", M), fs("unlink", M), fs("chmod", A)], [A]
+    elif t == "create_write":
+        ops, after = [fs("create", M), fs("write", M), fs("chmod", M)], [M]
+    elif t == "overwrite_write":
+        ops, after = [fs("rename", A, to=B), fs("write", B), fs("chmod", B)], [B]
+    elif t == "two_overwrites":
+        ops, after = [fs("rename", A, to=B), fs("rename", ("d1", "c"), to=B)], [B]
+    else:
+        ops, after = [fs("rename", A, to=M), fs("chmod", M)], [M]
+    steps.append({"s": "rep", "k": 1, "pat": pre + ops, "atomic": True})
+    steps += [{"s": "drain"}, {"s": "obs"}]
+    for q in after:
+        steps += [fs("write", q), {"s": "drain"}]
+    steps += [fs("create", ("d1", "last")), {"s": "drain"}, fs("chmod", ("d1", "last")), {"s": "drain"}, {"s": "obs"}, call(w, "watchlist"),
+              call(w, "remove", ("d1",), sp), {"s": "obs"}, call(w, "close"), {"s": "drain"}, {"s": "obs"}]
+    return steps
+
+
+def fam_kqdot(rnd, i):
+    """kqueue: the watched directory is the working directory, added as "." (or "./", "sub/.."): entries are named
+    without a "./" prefix, entries existing at Add are not reported, nothing is reported twice, and a second watch on a
+    subdirectory works alongside."""
+    w = "w1"
+    steps = [fs("create", ("old",)), fs("mkdir", ("sub",)), fs("create", ("sub", "in")), new(w, rnd.choice([0, 4]))]
+    a = rnd.choice([{"abs": False, "c": ["."]}, {"abs": False, "c": [".", ""]}, {"abs": False, "c": ["sub", ".."]}, {"abs": False, "c": []}])
+    steps += [{"s": "call", "w": w, "t": "t1", "op": "add", "arg": a}, {"s": "obs"}]
+    both = rnd.random() < 0.5
+    if both:
+        steps += [call(w, "add", ("sub",), "rel"), {"s": "obs"}]
+    ops = [fs("create", ("new",)), fs("write", ("new",)), fs("chmod", ("old",)), fs("mkdir", ("sub2",)), fs("rename", ("new",), to=("new2",)),
+           fs("unlink", ("old",)), fs("create", ("sub", "x")), fs("write", ("sub", "in")), fs("create", ("third",))]
+    for st in ops[:rnd.randint(3, len(ops))]:
+        steps += [st, {"s": "drain"}]
+    steps += [{"s": "obs"}, call(w, "watchlist"), {"s": "call", "w": w, "t": "t1", "op": "remove", "arg": a}, {"s": "obs"}]
+    if both:
+        steps += [fs("create", ("sub", "y")), {"s": "drain"}, call(w, "remove", ("sub",), "rel"), {"s": "obs"}]
+    steps += [call(w, "watchlist"), call(w, "close"), {"s": "drain"}, {"s": "obs"}]
     return steps
 
 
@@ -1054,6 +1196,13 @@ def fam_multi(rnd, i):
             steps.append(call(other, "close"))
         elif r < 0.5:
             steps.append(drain(rnd.choice(ws)))
+    if rnd.random() < 0.4:
+        # a watched directory is renamed and used under its new name while some watchers lag behind:
+        # what a watcher reports after the Rename must not depend on how far its reader had got
+        steps += [fs("create", ("d2", "one")), fs("rename", ("d2",), to=("d2m",)), fs("create", ("d2m", "two")),
+                  fs("write", ("d2m", "two")), fs("unlink", ("d2m", "one"))]
+        if rnd.random() < 0.5:
+            steps += [fs("mkdir", ("d2",)), fs("create", ("d2", "three"))]
     for w in ws:
         steps += [drain(w), call(w, "watchlist"), obs(w)]
     for w in ws:
@@ -1292,8 +1441,8 @@ FAMS = {
     "cycle": fam_cycle, "newclose": fam_newclose, "overflow": fam_overflow, "moves": fam_moves, "multi": fam_multi,
     "absorb": fam_absorb, "withops": fam_withops, "repoint": fam_repoint, "stall": fam_stall, "spell": fam_spell,
     "endwatch": fam_endwatch, "paced": fam_paced, "ovfstall": fam_ovfstall, "ovflate": fam_ovflate,
-    "parmoves": fam_parmoves, "multix": fam_multix, "recurse": fam_recurse, "cwd": fam_cwd, "readfault": fam_readfault,
-    "kqdir": fam_kqdir, "kqsym": fam_kqsym, "kqburst": fam_kqburst, "kqcycle": fam_kqcycle, "kqfault": fam_kqfault, "kqnested": fam_kqnested,
+    "parmoves": fam_parmoves, "multix": fam_multix, "recurse": fam_recurse, "cwd": fam_cwd, "readfault": fam_readfault, "recerr": fam_recerr,
+    "kqdir": fam_kqdir, "kqsym": fam_kqsym, "kqburst": fam_kqburst, "kqcycle": fam_kqcycle, "kqfault": fam_kqfault, "kqdot": fam_kqdot, "kqseq": fam_kqseq, "kqkfault": fam_kqkfault, "kqnested": fam_kqnested,
 }
 
 
